@@ -233,7 +233,7 @@ def parse_t1t(mem, hr0):
             p += 1
         if t == 0x03:
             return {"status": "ok" if ok else "beyond", "offset": pos, "length": ln,
-                    "value": bytes(vals), "last": p, "end": end}
+                    "value": bytes(vals), "last": p, "end": end, "reserved": reserved}
         if not ok:
             return {"status": "beyond"}
         if t == 0x01 and ln == 3:
